@@ -1318,6 +1318,7 @@ package scipipe
 //@   loop 2 invariant valid: forall o string :: o in t.OutIPs ==> t.OutIPs[o] != nil && fresh(t.OutIPs[o]) && allocated(t.OutIPs[o]) && allocated(t.OutIPs[o].BaseIP) && validPath(t.OutIPs[o].path)
 //@   loop 2 invariant stream: forall o string :: o in t.OutIPs ==> (t.OutIPs[o].doStream <==> (o in portInfos && portInfos[o].doStream))
 //@   loop 2 invariant distinct: forall o1 string, o2 string :: o1 in t.OutIPs && o2 in t.OutIPs && o1 != o2 ==> t.OutIPs[o1] != t.OutIPs[o2]
+//@   loop 2 invariant inputs-unchanged: forall k string :: joinPort(portInfos, k) ==> inIPs[k] == old(inIPs[k]) && inIPs[k].SubStream == old(inIPs[k].SubStream) && subChan(inIPs, k) == old(subChan(inIPs, k))
 //@   loop 2 invariant drained-a: forall k string :: joinPort(portInfos, k) ==> k in t.subStreamIPs
 //@   loop 2 invariant drained-b: forall k string :: joinPort(portInfos, k) ==> chanRecvN(subChan(inIPs, k)) == chanTotal(subChan(inIPs, k))
 //@   loop 2 invariant drained-c: forall k string :: joinPort(portInfos, k) ==> len(t.subStreamIPs[k]) == chanTotal(subChan(inIPs, k)) - old(chanRecvN(subChan(inIPs, k)))
